@@ -68,6 +68,11 @@ def build(case):
                     f[j - 1] += 0.045 * Fmax
                     f[j] -= 0.03 * Fmax
                     f[j + 1] += 0.045 * Fmax
+        elif case["spikes"] == "saturated":
+            # saturated detector: the force does not rise any further once
+            # the tip is in contact
+            ind = np.flatnonzero(arr["tip position"][:n] < 2.5e-7)
+            f[ind] = 3e-11 + 0.3 * Fmax
         elif case["spikes"]:
             ind = np.flatnonzero(arr["tip position"][:n] < 2.5e-7)
             if ind.size > 6:
@@ -141,8 +146,50 @@ def feats(idnt, which_type="all", names=None):
                                ret_names=True)
 
 
+def _feats_or_exc(case):
+    try:
+        names, vals = None, None
+        r = feats(build(case))
+        vals, names = r[0], r[1]
+        return [(n, float(v)) for n, v in zip(names, vals)]
+    except BaseException as e:
+        if isinstance(e, (KeyboardInterrupt, SystemExit, MemoryError)):
+            raise
+        return "raises " + type(e).__name__
+
+
+def sequence_case(case):
+    """features depend only on the curve: the features of curve B computed
+    after those of curve A (same process, nothing restored in between) are
+    those of B computed in a pristine process"""
+    from .. import state
+    out = []
+    a, b = case["first"], case["second"]
+    state.restore()
+    ref = _feats_or_exc(b)
+    state.restore()
+    _feats_or_exc(a)
+    got = _feats_or_exc(b)
+    same = type(ref) is type(got) and (
+        ref == got if isinstance(ref, str) else
+        len(ref) == len(got) and all(
+            n1 == n2 and (v1 == v2 or (v1 != v1 and v2 != v2))
+            for (n1, v1), (n2, v2) in zip(ref, got)))
+    if not same:
+        what = got if isinstance(got, str) else "other values"
+        out.append(V(PROP, "depends-on-history", site="sequence",
+                     witness=f"{case['tag']}", detail="features of the "
+                     f"second curve after those of the first: {what}; alone: "
+                     f"{ref if isinstance(ref, str) else 'values'}",
+                     case=case, kind="grid"))
+    state.restore()
+    return out, ("sequence", same)
+
+
 def case_fn(case):
     from nanite.rate.features import IndentationFeatures as IF
+    if case.get("kind") == "sequence":
+        return sequence_case(case)
     out = []
     try:
         idnt = build(case)
@@ -357,6 +404,31 @@ def cases(tier):
                    "preprocessed", "edited", "unsuccessful",
                    "unsuccessful-relative"):
             cs.append({"kind": "grid", "recorded": f, "state": st})
+    # a saturated detector (constant force in the indentation part)
+    special = {}
+    for mk in ("hertz_para", "hertz_cone"):
+        for n in (700,):
+            c = {"kind": "grid", "model": mk, "noise": 0.0,
+                 "spikes": "saturated", "n": n, "position": "inside",
+                 "state": "fitted"}
+            cs.append(c)
+            special["saturated:" + mk] = c
+    # ordered pairs of curves whose features are computed one after the
+    # other in one process
+    base = {"kind": "grid", "model": "hertz_para", "spikes": 0, "n": 700,
+            "position": "inside"}
+    special["clean"] = dict(base, noise=0.0, state="fitted")
+    special["noisy"] = dict(base, noise=0.05, state="fitted")
+    special["spiky"] = dict(base, noise=0.01, spikes=3, state="fitted")
+    special["short"] = dict(base, noise=0.01, n=100, state="fitted")
+    special["unsuccessful"] = dict(base, noise=0.01, state="unsuccessful")
+    special["fresh"] = dict(base, noise=0.01, state="fresh")
+    special["recorded"] = {"kind": "grid", "recorded": RECORDED[0],
+                           "state": "fitted"}
+    for ta, ca in special.items():
+        for tb, cb in special.items():
+            cs.append({"kind": "sequence", "first": ca, "second": cb,
+                       "tag": f"{ta}->{tb}"})
     return cs
 
 
